@@ -153,6 +153,7 @@ class PathEnd(Exception):
 
 
 Unsupported = F.Unsupported
+EVAL_DEBUG_ASSERTS = True
 
 
 class Config:
@@ -161,7 +162,11 @@ class Config:
         self.max_items = kw.get("max_items", 2)     # items drawn from an opaque iterator
         self.max_steps = kw.get("max_steps", 200000)
         self.max_depth = kw.get("max_depth", 24)
-        self.release = kw.get("release", False)     # skip `if cfg!(debug_assertions)` blocks
+        # `release=True` asks for release-build semantics of `cfg!(debug_assertions)`.  The conditions of
+        # debug_assert*! are evaluated nevertheless (EVAL_DEBUG_ASSERTS): a debug build that panics where
+        # the release build computes the right answer still breaks the property for that build, and the
+        # rules report such paths as R-DASSERT instead of the rule they interrupt.
+        self.release = kw.get("release", False) and not EVAL_DEBUG_ASSERTS
         self.consts = kw.get("consts", {})          # const-generic bindings, e.g. {"LEN": 3}
         self.nonneg_atoms = set(kw.get("nonneg_atoms", ()))
         self.sorted_slices = kw.get("sorted_slices", True)
